@@ -23,14 +23,16 @@ SP.sec.crypto = BACK
 VALS = ["Alice", "<b>", "&amp;", "a&b", "\"q'", "é", "日本", "\U0001F600", "  padded  ", "l1\nl2", "<!--x-->", "<saml:Attribute Name=\"evil\"/>",
         "]]>", "x" * 300, "a\tb", "0", "<?xml version='1.0'?>", "", "   ", "CORP\\user1", "EXAMPLE\\north"]
 NV = len(VALS)
+SLACKS = [0, 1, 180, 86400]
+LIFETIME = 15 * 60                      # the IdP fixture's policy lifetime: expiry read when no SessionNotOnOrAfter is asserted
 FORMATS = [saml.NAMEID_FORMAT_TRANSIENT, saml.NAMEID_FORMAT_PERSISTENT, saml.NAMEID_FORMAT_EMAILADDRESS, saml.NAMEID_FORMAT_UNSPECIFIED]
 ACS = ["urn:oasis:names:tc:SAML:2.0:ac:classes:Password", "urn:oasis:names:tc:SAML:2.0:ac:classes:PasswordProtectedTransport",
        "urn:oasis:names:tc:SAML:2.0:ac:classes:unspecified"]
 
 
 def roundtrip(v1: int, v2: int, v3: int, nid: int, fmt: int, ac: int, sign_response: bool, sign_assertion: bool, encrypt: bool,
-              want: int, session: bool, soap: bool = False):
-    v1, v2, v3, nid, fmt, ac, want = [concrete(x) for x in (v1, v2, v3, nid, fmt, ac, want)]
+              want: int, session: bool, soap: bool = False, slack: int = 0):
+    v1, v2, v3, nid, fmt, ac, want, slack = [concrete(x) for x in (v1, v2, v3, nid, fmt, ac, want, slack)]
     sign_response, sign_assertion, encrypt, session, soap = [concrete(x) for x in (sign_response, sign_assertion, encrypt, session, soap)]
     ck = Clock(NOW)
     IDP.reset()
@@ -59,6 +61,7 @@ def roundtrip(v1: int, v2: int, v3: int, nid: int, fmt: int, ac: int, sign_respo
     SP.want_response_signed, SP.want_assertions_signed = want_resp, want_ass
     SP.want_assertions_or_response_signed = (want == 3) and (sign_response or sign_assertion)
     SP.allow_unsolicited = False
+    SP.config.accepted_time_diff = SLACKS[slack]        # the SP's clock-skew allowance must not change what the application reads
     SP.users = Population()
     resp = None
     exc = None
@@ -85,9 +88,10 @@ def roundtrip(v1: int, v2: int, v3: int, nid: int, fmt: int, ac: int, sign_respo
     if [a[0] for a in si["authn_info"]] != [ACS[ac]]:
         ok = False
         why.append("authn_info %r" % (si["authn_info"],))
-    if session and si["not_on_or_after"] != sess:
+    exp_expiry = sess if session else NOW + LIFETIME
+    if si["not_on_or_after"] != exp_expiry:
         ok = False
-        why.append("session expiry %r != %r" % (si["not_on_or_after"], sess))
+        why.append("session expiry %r != %r" % (si["not_on_or_after"], exp_expiry))
     # values are data: the SP finds exactly one assertion carrying exactly the two attributes
     n_ass = len(resp.assertions)
     n_attr = sum(len(st.attribute) for a in resp.assertions for st in a.attribute_statement)
@@ -98,13 +102,13 @@ def roundtrip(v1: int, v2: int, v3: int, nid: int, fmt: int, ac: int, sign_respo
 
 
 _P = [("v1", "int"), ("v2", "int"), ("v3", "int"), ("nid", "int"), ("fmt", "int"), ("ac", "int"), ("sign_response", "bool"),
-      ("sign_assertion", "bool"), ("encrypt", "bool"), ("want", "int"), ("session", "bool"), ("soap", "bool")]
-_PRE = ["0 <= v1 < %d" % NV, "0 <= v2 < %d" % NV, "0 <= v3 < %d" % NV, "0 <= nid < %d" % NV, "0 <= fmt < %d" % len(FORMATS), "0 <= ac < %d" % len(ACS), "0 <= want <= 3"]
+      ("sign_assertion", "bool"), ("encrypt", "bool"), ("want", "int"), ("session", "bool"), ("soap", "bool"), ("slack", "int")]
+_PRE = ["0 <= v1 < %d" % NV, "0 <= v2 < %d" % NV, "0 <= v3 < %d" % NV, "0 <= nid < %d" % NV, "0 <= fmt < %d" % len(FORMATS), "0 <= ac < %d" % len(ACS), "0 <= want <= 3", "0 <= slack < %d" % len(SLACKS)]
 CONDITIONS = [
     Cond(name="roundtrip", fn="roundtrip", params=_P, pre=_PRE,
          partitions={"quick": [{"v1": a, "v2": (a * 7 + 3) % NV, "v3": (a * 5 + 1) % NV, "nid": (a * 3 + 2) % NV, "fmt": a % 4, "ac": a % 3,
-                                "sign_response": a % 2 == 0, "sign_assertion": (a // 2) % 2 == 0, "want": a % 4, "session": a % 3 == 0, "soap": a % 2 == 1} for a in range(NV)],
-                     "thorough": [{"v1": a, "v2": (a * 7 + 3) % NV, "v3": a, "nid": a, "fmt": f, "ac": a % 3, "want": (a + f) % 4, "session": a % 2 == 0}
+                                "sign_response": a % 2 == 0, "sign_assertion": (a // 2) % 2 == 0, "want": a % 4, "session": a % 3 == 0, "soap": a % 2 == 1, "slack": a % len(SLACKS)} for a in range(NV)],
+                     "thorough": [{"v1": a, "v2": (a * 7 + 3) % NV, "v3": a, "nid": a, "fmt": f, "ac": a % 3, "want": (a + f) % 4, "session": a % 2 == 0, "slack": (a + f) % len(SLACKS)}
                                   for a in range(NV) for f in range(4)]},
          timeout={"quick": 900, "thorough": 2400}, path_timeout=120,
          functions=["server.Server.create_authn_response/_authn_response/setup_assertion", "entity.Entity._response/_encrypt_assertion", "assertion.Assertion.construct",
@@ -112,7 +116,7 @@ CONDITIONS = [
                     "entity.Entity._parse_response/unravel", "response.AuthnResponse.loads/verify/parse_assertion/get_identity/session_info", "metadata.entity_descriptor (fixtures)"],
          bounds="attribute values (givenName single, mail 1-2 values) and NameID text from a %d-entry alphabet (XML-special, quotes, non-ASCII, astral, padded, line breaks, comment / element / "
                 "declaration look-alikes, ']]>', 300 chars); 4 NameID formats; 3 authn context classes; sign_response x sign_assertion x encrypt_assertion; 4 SP requirement settings "
-                "(satisfied by what is signed); session expiry present/absent; POST and SOAP bindings. quick: one diagonal sample per alphabet entry with encrypt free" % NV),
+                "(satisfied by what is signed); session expiry present/absent (read back as SessionNotOnOrAfter resp. the policy lifetime); SP clock-skew allowance in {0, 1, 180, 86400} s; POST and SOAP bindings. quick: one diagonal sample per alphabet entry with encrypt free" % NV),
 ]
 
 ASSUMPTIONS = [
